@@ -732,6 +732,19 @@ func genCoreColourPairs(c *explore.C) Case {
 	return Case{Doc: d, Render: r}
 }
 
+// genCoreCentis: full product - every hundredth of a second (0..99) after 0 s, 1 s, 59 s, 59:59 and 9:59:59, as start
+// and (one hundredth later) as end: a writer that goes through floating-point seconds is off for a few of them.
+func genCoreCentis(c *explore.C) Case {
+	d := baseDoc(!c.Bool("v4"))
+	d.StyleAttrs = []string{"Fontname"}
+	d.Styles = []ssa.Style{{Name: "Default", Attrs: map[string]ssa.Value{"Fontname": str("Arial")}}}
+	d.EventCols = []string{"LM", "Style"}
+	base := explore.Pick(c, "seconds", int64(0), 1, 59, 3599, 35999)
+	cs := int64(c.Choose("hundredths", 100))
+	d.Events = []ssa.Event{{Start: base*100 + cs, End: base*100 + cs + 1, Style: "Default", Lines: [][]ssa.Run{{{Text: "x"}}}}}
+	return Case{Doc: d, Render: ssa.DefaultRender(d)}
+}
+
 // genCoreNames: full product - style name x font name x speaker name class x the three ways an event refers to the
 // style (exact, '*'-prefixed, not at all) x version.
 func genCoreNames(c *explore.C) Case {
